@@ -82,7 +82,8 @@ def run_pretty_job(prog, job):
         return {'kind': 'custom', 'module': 'pretty', 'confirm': 'confirm', 'checks': failed, 'op': 'pretty_' + trait.lower(), 'N': N, 'cfg': job['cfg'],
                 'pre': A.model_dict(m), 'role': 'pretty', 'got': got, 'expected': exp,
                 'args': {'x': m.eval(x, model_completion=True).as_long(), 'alt': z3.is_true(m.eval(alt, model_completion=True)), 'trait': trait,
-                         'texts': [RS[m.eval(r, model_completion=True).as_long()][0] for r in rsel]}}
+                         'texts': [RS[m.eval(r, model_completion=True).as_long()][0] for r in rsel],
+                         'chunks': [RS[m.eval(r, model_completion=True).as_long()][1] for r in rsel]}}
 
     for o in outs:
         res['steps'] += o.state.steps
@@ -199,7 +200,9 @@ def confirm(prop, v):
     for profile in ('dev', 'release'):
         lines = replay.construct_script(pre)
         n0 = len(lines)
-        for n, t in texts.items(): lines.append('render %d %s' % (n - 1, t.replace('\n', '\\n')))
+        for n, t in texts.items():
+            chunks = a.get('chunks', [[x] for x in a['texts']])[n - 1]
+            lines.append('render %d %s' % (n - 1, '|~|'.join(c.replace('\n', '\\n') for c in chunks)))
         lines.append('pretty %s s%d' % (mode, a['x']))
         res = replay.run_script(lines, profile)
         d = res.get(n0 - 1)
